@@ -27,8 +27,8 @@ func init() {
 func c12(r *Run) {
 	w := r.W
 	ro := rolesOf(w)
-	active := callResultAtom(ro.isActive, true)
-	inactive := callResultAtom(ro.isActive, false)
+	active := activeFact(ro)
+	inactive := closedFact(ro)
 
 	// ---- R1 writer guard (sibling rule over the Writer method set) ---------------------------------
 	writerIface := w.NamedType("Writer").Underlying().(*types.Interface)
@@ -74,7 +74,8 @@ func c12(r *Run) {
 				return isCallOrDefer(i, ro.lock)
 			}, nil, nil, nil, "no buffer use / lock reachable")
 		// the guard is the first thing: nothing blocking or state-changing before it
-		r.mustPass("C12.R1:guard-first:"+name, "the IsActive() test is on every path of the method", fn, nil, []Start{Entry(fn)}, func(i ssa.Instruction) bool { return isCall(i, ro.isActive) }, nil, nil, "IsActive() on every path")
+		pxx := protoEffects(w)
+		r.mustPass("C12.R1:guard-first:"+name, "the closed-state test is on every path of the method", fn, nil, []Start{Entry(fn)}, func(i ssa.Instruction) bool { return pxx.Must(i, "readClosing") }, nil, nil, "IsActive() on every path")
 	}
 
 	// ---- R2 reader mapping (shared with C07.R2/R5) -------------------------------------------------
